@@ -29,7 +29,8 @@ CONN3 = T.GridT("bool", [2, None, None])
 META_A = T.PyDictT(start_coord=T.Coord, fully_connected=T.Bool, visited_cells=T.SetT(2))          # gen_dfs, gen_prim, gen_dfs_percolation
 META_B = T.PyDictT(start_coord=T.Coord, visited_cells=T.ListT(T.CoordTup))                           # gen_percolation (never flagged)
 META_C = T.PyDictT(fully_connected=T.Const(True))                                                    # gen_wilson
-MAZE_META = T.OneOf(*[T.RecT("LatticeMaze", connection_list=CONN3, generation_meta=m) for m in (META_A, META_B, META_C)])
+META_D = T.PyDictT(start_coord=T.Coord, fully_connected=T.Bool, visited_cells=T.ListT(T.CoordTup))  # gen_dfs_percolation (cells recomputed as a list)
+MAZE_META = T.OneOf(*[T.RecT("LatticeMaze", connection_list=CONN3, generation_meta=m) for m in (META_A, META_B, META_C, META_D)])
 _GM = "self.generation_meta"
 _RC = "(0, self.connection_list.shape[1]), (0, self.connection_list.shape[2])"
 # "the generation metadata tells the truth" (C12, proved for every generator): whenever it records visited cells they are exactly the cells
@@ -39,7 +40,7 @@ MT = [
     f"(in_grid(self, {_GM}['start_coord']) and forall(lambda i, j: ((i, j) in {_GM}['visited_cells']) == reach(self, {_GM}['start_coord'], (i, j)), None, None))"
     f" if has_key({_GM}, 'visited_cells') else True",
     f"(distinct_rows({_GM}['visited_cells']) and forall(lambda t: reach(self, {_GM}['start_coord'], {_GM}['visited_cells'][t]), (0, len({_GM}['visited_cells']))))"
-    f" if (has_key({_GM}, 'visited_cells') and not has_key({_GM}, 'fully_connected')) else True",
+    f" if (has_key({_GM}, 'visited_cells') and is_list({_GM}['visited_cells'])) else True",
     f"implies({_GM}['fully_connected'], forall(lambda i, j, a, b: reach(self, (i, j), (a, b)), {_RC}, {_RC})) if has_key({_GM}, 'fully_connected') else True",
     f"has_key({_GM}, 'visited_cells') or {_GM}['fully_connected'] == True",
 ]
@@ -142,6 +143,39 @@ class item_wilson:
     requires = ["grid_shape[0] > 1 and grid_shape[1] > 1"]
     # (the clauses of gen_wilson that speak about its ghost root are not visible to callers)
     uses_ensures = {"LatticeMazeGenerators.gen_wilson": [lab for lab, txt in CG.gen_wilson.ensures.items() if "final(" not in txt]}
+    ensures = dict(_ITEM)
+    raises = {"ValueError": None}
+    props = ["C03"]
+
+
+@contract(L, "item_prim")
+class item_prim:
+    params = dict(CG.gen_prim.params, **_OPTS)
+    params.pop("lattice_dim")
+    requires = CG.gen_prim.requires + ["grid_shape[0] > 1 and grid_shape[1] > 1"]
+    lemma_after = {"maze = LatticeMazeGenerators.gen_prim(": ["reach_common(maze, maze.generation_meta['start_coord'])"]}
+    ensures = dict(_ITEM)
+    raises = {"ValueError": None}
+    props = ["C03"]
+
+
+@contract(L, "item_percolation")
+class item_percolation:
+    params = dict(CG.gen_percolation.params, **_OPTS)
+    params.pop("lattice_dim")
+    requires = CG.gen_percolation.requires + ["grid_shape[0] > 1 and grid_shape[1] > 1"]
+    ensures = dict(_ITEM)
+    raises = {"ValueError": None}
+    props = ["C03"]
+
+
+@contract(L, "item_dfs_percolation")
+class item_dfs_percolation:
+    params = dict(CG.gen_dfs_percolation.params, **_OPTS)
+    params.pop("lattice_dim")
+    requires = CG.gen_dfs_percolation.requires + ["grid_shape[0] > 1 and grid_shape[1] > 1"]
+    lemma_after = {"maze = LatticeMazeGenerators.gen_dfs_percolation(": ["reach_common(maze, maze.generation_meta['start_coord'])"]}
+    uses_ensures = {"LatticeMazeGenerators.gen_dfs_percolation": [lab for lab, txt in CG.gen_dfs_percolation.ensures.items() if "final(" not in txt]}
     ensures = dict(_ITEM)
     raises = {"ValueError": None}
     props = ["C03"]
